@@ -39,7 +39,15 @@ func verifFcSecret(typ api_v1.SecretType, mode string, path string) *secrets.Sec
 // mode: ok | policy-missing | secret-missing | secret-invalid | secret-wrongtype | dep2-missing | dep2-wrongtype | ap-missing | aplog-missing | context
 func verifFcPolicy(kind, mode string, ex *VirtualServerEx) *conf_v1.Policy {
 	p := &conf_v1.Policy{ObjectMeta: meta_v1.ObjectMeta{Namespace: "d", Name: "target"}}
+	primary := true
 	sec := func(name string, typ api_v1.SecretType, m string) {
+		if verifFcStoreHist != "" && primary {
+			// the reference comes out of the real secret store after the Secret went through the given history
+			primary = false
+			ex.SecretRefs["d/"+name] = verifStoreRef(typ, name, verifFcStoreHist)
+			return
+		}
+		primary = false
 		ex.SecretRefs["d/"+name] = verifFcSecret(typ, m, "/etc/nginx/secrets/d-"+name)
 	}
 	first := mode
@@ -153,6 +161,51 @@ func verifBlocks(content string) (serverLevel string, locations map[string]strin
 	return srv.String(), locations
 }
 
+// verifFcStoreHist, when set (kv store=<hist>), makes the primary Secret of the policy / TLS block under test go through a real
+// LocalSecretStore first: v = add or update with valid content, i = with invalid content, g = a resource looks it up.
+var verifFcStoreHist string
+
+func verifStoreRef(typ api_v1.SecretType, name, hist string) *secrets.SecretReference {
+	root, err := os.MkdirTemp("", "verif-c08-store-")
+	if err != nil {
+		return &secrets.SecretReference{Error: errors.New("tmp")}
+	}
+	defer os.RemoveAll(root)
+	cnf, _, err := VerifNewConfigurator(root, true)
+	if err != nil {
+		return &secrets.SecretReference{Error: errors.New("setup")}
+	}
+	store := secrets.NewLocalSecretStore(cnf)
+	short, bad := "tls", "mismatch"
+	switch typ {
+	case secrets.SecretTypeJWK:
+		short, bad = "jwk", "missing"
+	case secrets.SecretTypeHtpasswd:
+		short, bad = "htp", "missing"
+	case secrets.SecretTypeCA:
+		short, bad = "ca", "nonpem"
+	case secrets.SecretTypeOIDC:
+		short, bad = "oidc", "missing"
+	case secrets.SecretTypeAPIKey:
+		short, bad = "api", "dup"
+	}
+	for i, c := range hist {
+		switch c {
+		case 'v':
+			store.AddOrUpdateSecret(verifSecret("d", name, short, "ok", i))
+		case 'i':
+			store.AddOrUpdateSecret(verifSecret("d", name, short, bad, i))
+		case 'g':
+			_ = store.GetSecret("d/" + name)
+		}
+	}
+	ref := store.GetSecret("d/" + name)
+	// the files live in the temporary root, which is removed: the generation only writes the path(s) into the configuration
+	out := *ref
+	out.Path = strings.ReplaceAll(out.Path, root, "/etc/nginx")
+	return &out
+}
+
 // verifWafVariant selects the shape of the WAF policy under test (set per case by VerifFailClosed; the harness is single-threaded).
 var verifWafVariant string
 
@@ -202,7 +255,9 @@ func VerifFailClosed(kv map[string]string) string {
 	vs.Spec.TLS = &conf_v1.TLS{Secret: "tls"}
 	ex.SecretRefs["d/tls"] = &secrets.SecretReference{Secret: &api_v1.Secret{Type: api_v1.SecretTypeTLS}, Path: "/etc/nginx/secrets/d-tls"}
 	verifWafVariant = kv["waf"]
+	verifFcStoreHist = kv["store"]
 	target := verifFcPolicy(kv["kind"], kv["mode"], ex)
+	verifFcStoreHist = ""
 	if kv["mode"] != "policy-missing" {
 		ex.Policies["d/target"] = target
 	}
